@@ -3,7 +3,7 @@ import os
 from fractions import Fraction
 
 from .. import common, tlc, patterning, traces
-from ..objects import warmup
+from ..objects import warmup, make_object
 
 GET = {
     "countPos": lambda o: o.get_countPos(), "countNeg": lambda o: o.get_countNeg(), "countNeut": lambda o: o.get_countNeut(),
@@ -98,8 +98,14 @@ def run(ctx):
         perm = "".join(perm)
         pair = []
         for var in (s, perm):
-            o = lc.SP(var)
-            hist = warmup(o, ctx.rng) if (i % 2) else []
+            o, var, how = make_object(lc, var, ctx.rng)
+            hist = ([{"made": how}] if how != "direct" else []) + (warmup(o, ctx.rng) if (i % 2) else [])
+            # the scale name is documented as case-insensitive
+            for mode, q in (("Creamer", "PPII_creamer"), ("KALLENBACH", "PPII_kallenbach"), ("Hilser", "PPII_hilser")):
+                alt = common.call(o.get_PPII_propensity, mode)
+                ref = common.call(o.get_PPII_propensity, mode.lower())
+                if repr(alt) != repr(ref):
+                    ctx.violation("param-" + q, {"seq": var, "mode": mode}, expected=ref, actual=alt)
             outs = all_replies(o)
             ctx.evaluations += 1
             tid += 1
